@@ -13,13 +13,13 @@
 //	    spec's `caches[j]`, j = number of whole entries below the cut (an earlier acknowledged entry is never lost,
 //	    nothing that was not written appears).
 //
-// A `crash` step continues on an image holding the first j in-flight entries and tz*64 bytes of the next one; a
+// A `crash` step continues on an image holding the first j in-flight entries and a strict prefix of the next one; a
 // `reopen` step is a new WAL object on that directory in the order Engine.Open uses: WAL.Open, then CacheLoader.Load
 // over all segment files.  Concurrent callers sharing one fsync (`append` ... `sync`) are scheduled through the
 // verif hook points "wal.write.appended" / "wal.sync.begin" (build tag verif).
 //
 // All expected values come from the TLA+ history; this file only concretises the abstract domain (keys, timestamps,
-// the five value types, entry sizes padded to the spec's units) and projects real results back.
+// the five value types, the byte value of the spec's roll-over threshold) and projects real results back.
 package main
 
 import (
@@ -113,16 +113,12 @@ type caseT struct {
 	Steps   []stepT `json:"steps"`
 	Ops     []opT   `json:"ops"`
 	Variant int64   `json:"variant"`
-	Unit    int     `json:"unit"`    // bytes per size unit of the spec
-	SegSize int     `json:"segSize"` // spec constant SegSize (units)
-	Base    int     `json:"base"`    // real segment id = Base + spec id
-	Sweep   string  `json:"sweep"`   // "all" | "sample" | "none"
+	Base    int     `json:"base"`  // real segment id = Base + spec id
+	Sweep   string  `json:"sweep"` // "all" | "sample" | "none"
 	Tag     string  `json:"tag"`
 }
 
 // ---------------------------------------------------------------------------------------------- concretisation
-
-const ghost = "~"
 
 var keyVariants = map[string][]string{
 	"k1": {"cpu", "a,b=c v", "m\\ ,t=\\,", "\x00\xff=#!~#", "#!~#v", "\u00e9\u20ac"},
@@ -144,7 +140,7 @@ type conc struct {
 	times [3]int64
 	widen bool
 	rot   int
-	pads  *rand.Rand
+	rng   *rand.Rand
 }
 
 func newConc(variant int64, salt int) *conc {
@@ -158,7 +154,7 @@ func newConc(variant int64, salt int) *conc {
 	c.times = timeVariants[r.Intn(len(timeVariants))]
 	c.widen = r.Intn(2) == 0
 	c.rot = r.Intn(8)
-	c.pads = rand.New(rand.NewSource(variant*104729 + int64(salt)*31 + 5))
+	c.rng = rand.New(rand.NewSource(variant*104729 + int64(salt)*31 + 5))
 	return c
 }
 
@@ -212,19 +208,6 @@ type cop struct {
 	min    int64
 	max    int64
 	canon  string
-	size   int // planned entry size in bytes (5-byte header + snappy block)
-}
-
-func (c *conc) padBytes(n int, forDelete bool) []byte {
-	b := make([]byte, n)
-	for i := range b {
-		x := byte(c.pads.Intn(256))
-		if forDelete && x == '\n' {
-			x = 0x0b
-		}
-		b[i] = x
-	}
-	return b
 }
 
 func canonWrite(values map[string][]tsm1.Value) string {
@@ -269,8 +252,8 @@ func canonEntry(e tsm1.WALEntry) string {
 	return fmt.Sprintf("unknown %T", e)
 }
 
-// build op n with a ghost pad of padLen bytes (the ghost key never belongs to the spec's key universe)
-func (c *conc) build(o *opT, n int, pad []byte) *cop {
+// build concretises op n
+func (c *conc) build(o *opT, n int) *cop {
 	r := &cop{kind: o.Kind}
 	switch o.Kind {
 	case "w":
@@ -286,7 +269,6 @@ func (c *conc) build(o *opT, n int, pad []byte) *cop {
 			ck := c.keys[p.K]
 			r.values[ck] = append(r.values[ck], c.value(p.K, c.time(p.T), n))
 		}
-		r.values[ghost] = []tsm1.Value{tsm1.NewStringValue(int64(n), string(pad))}
 		r.canon = canonWrite(r.values)
 	case "dr", "d":
 		ks := append([]string{}, o.Keys...)
@@ -299,7 +281,6 @@ func (c *conc) build(o *opT, n int, pad []byte) *cop {
 		for _, k := range ks {
 			r.keys = append(r.keys, []byte(c.keys[k]))
 		}
-		r.keys = append(r.keys, append([]byte(ghost), pad...))
 		if o.Kind == "dr" {
 			r.min, r.max = c.time(o.Min), c.time(o.Max)
 			if c.widen {
@@ -316,80 +297,6 @@ func (c *conc) build(o *opT, n int, pad []byte) *cop {
 		}
 	}
 	return r
-}
-
-func (r *cop) entry() tsm1.WALEntry {
-	switch r.kind {
-	case "w":
-		return &tsm1.WriteWALEntry{Values: r.values}
-	case "dr":
-		return &tsm1.DeleteRangeWALEntry{Keys: r.keys, Min: r.min, Max: r.max}
-	default:
-		return &tsm1.DeleteWALEntry{Keys: r.keys}
-	}
-}
-
-// measured size of the entry as writeToLog lays it out (max over the map iteration orders seen): the entry is written
-// to a scratch WAL of the real code and the growth of its size counter is read
-func (r *cop) measure(m *run) (int, error) {
-	samples := 1
-	if r.kind == "w" && len(r.values) > 1 {
-		samples = 2 * len(r.values)
-	}
-	max := 0
-	for i := 0; i < samples; i++ {
-		s0 := m.w.DiskSizeBytes()
-		if x := m.writeNow(r, 0); x != nil {
-			return 0, fmt.Errorf("calibration write: %s", x.Msg)
-		}
-		n := int(m.w.DiskSizeBytes() - s0)
-		if n > max {
-			max = n
-		}
-	}
-	return max, nil
-}
-
-// calibrate pads op n to its planned size: delete entries (deterministic layout) to exactly target bytes, write entries
-// (map iteration order moves the snappy output by a few bytes) to 12..24 bytes below it, so that no order exceeds it.
-// Roll-over decisions compare sums of at most a few entries (each 2 or 4 units) with a multiple of the unit: a
-// shortfall of up to 24 bytes per entry cannot change them.
-func (c *conc) calibrate(m *run, o *opT, n, target int) (*cop, error) {
-	forDelete := o.Kind == "d"
-	lo, hi := target, target
-	if o.Kind == "w" {
-		lo, hi = target-10, target-6
-	}
-	for attempt := 0; attempt < 4; attempt++ {
-		base := c.padBytes(target+64, forDelete)
-		step := 1
-		if o.Kind == "w" {
-			// a run of one byte value: snappy turns it into 3-byte copies of 64 bytes and, unlike random bytes, does not
-			// start skipping input (which would make the size depend on where the map iteration puts the pad)
-			base = bytes.Repeat([]byte{byte(0x61 + attempt)}, 64*(target+64)/3)
-			step = 21
-		}
-		L := 0
-		for iter := 0; iter < 16; iter++ {
-			if L < 0 || L > len(base) {
-				break
-			}
-			r := c.build(o, n, base[:L])
-			sz, err := r.measure(m)
-			if err != nil {
-				return nil, err
-			}
-			if sz >= lo && sz <= hi {
-				r.size = sz
-				return r, nil
-			}
-			if iter == 0 && sz > hi {
-				return nil, fmt.Errorf("op %d (%s) needs %d bytes without padding, unit too small for %d", n, o.Kind, sz, target)
-			}
-			L += ((lo+hi)/2 - sz) * step
-		}
-	}
-	return nil, fmt.Errorf("cannot pad op %d (%s) to %d bytes", n, o.Kind, target)
 }
 
 // ---------------------------------------------------------------------------------------------- schedule hooks
@@ -457,7 +364,7 @@ func (c *ctl) waitFor(pred func() bool, d time.Duration) bool {
 
 var hooksPresent bool
 
-const waitMax = 30 * time.Second
+const waitMax = 10 * time.Second
 
 // ---------------------------------------------------------------------------------------------- files
 
@@ -538,9 +445,6 @@ func loadCache(dir string) (map[string]string, error) {
 	}
 	out := map[string]string{}
 	for _, k := range c.Keys() {
-		if string(k) == ghost {
-			continue
-		}
 		for _, v := range c.Values(k) {
 			out[fmt.Sprintf("%q@%d", k, v.UnixNano())] = valString(v)
 		}
@@ -568,7 +472,7 @@ type run struct {
 	pending []call
 	evals   int
 	drift   map[string]bool
-	retry   bool // a padded entry came out larger than planned (map order): run the case again with other pads
+	wsize   int64 // bytes the writer accounts to the current segment: file size when it was opened + entries appended
 }
 
 func (r *run) expCache(ps []pt) map[string]string {
@@ -610,7 +514,7 @@ func (r *run) openWAL() error {
 		}
 	}
 	w := tsm1.NewWAL(r.dir, 0, 0, tsdb.EngineTags{})
-	w.SegmentSize = r.c.SegSize * r.c.Unit
+	w.SegmentSize = 1 << 30 // set before every append from the spec's roll-over decision (see threshold)
 	if err := w.Open(); err != nil {
 		return err
 	}
@@ -634,7 +538,14 @@ func (r *run) do(o *cop) error {
 }
 
 // start op n in its own goroutine and wait until it has appended its entry and waits for the fsync
-func (r *run) startAppend(n int, o *cop) (res *rt.Result) {
+func (r *run) startAppend(n int, o *cop, rolled bool) (res *rt.Result) {
+	r.threshold(rolled)
+	s0 := r.w.DiskSizeBytes()
+	defer func() {
+		if res == nil {
+			r.grew(rolled, r.w.DiskSizeBytes()-s0)
+		}
+	}()
 	hc.mu.Lock()
 	hc.tokens = 0
 	a0 := hc.appended
@@ -665,16 +576,37 @@ func (r *run) startAppend(n int, o *cop) (res *rt.Result) {
 	return nil
 }
 
+// threshold gives the spec's roll-over decision for the next append its byte value: WAL.SegmentSize is the largest
+// value at which the writer's current size still rolls (spec: wsize > SegSize), or the smallest at which it does not.
+// Both directions of `size > SegmentSize` are thereby exercised at distance one from the boundary.
+func (r *run) threshold(rolled bool) {
+	if rolled {
+		r.w.SegmentSize = int(r.wsize) - 1
+	} else {
+		r.w.SegmentSize = int(r.wsize)
+	}
+}
+
+func (r *run) grew(rolled bool, by int64) {
+	if rolled {
+		r.wsize = 0
+	}
+	r.wsize += by
+}
+
 // one caller, nobody else waiting: the call runs to its return
-func (r *run) writeNow(o *cop, n int) *rt.Result {
+func (r *run) writeNow(o *cop, n int, rolled bool) *rt.Result {
 	if !hooksPresent {
+		r.threshold(rolled)
+		s0 := r.w.DiskSizeBytes()
 		if err := r.do(o); err != nil {
 			x := rt.Fail(-1, fmt.Sprintf("operation %d returned error %v", n, err), err.Error(), "nil")
 			return &x
 		}
+		r.grew(rolled, r.w.DiskSizeBytes()-s0)
 		return nil
 	}
-	if x := r.startAppend(n, o); x != nil {
+	if x := r.startAppend(n, o, rolled); x != nil {
 		return x
 	}
 	r.giveToken()
@@ -704,7 +636,6 @@ func (r *run) expectAcked(ns []int, what string) *rt.Result {
 			}
 		case <-time.After(waitMax):
 			x := rt.Fail(-1, fmt.Sprintf("%s: operation %d did not return although its segment was synced", what, n), "blocked", "nil")
-			x.Kind = "hang"
 			return &x
 		}
 	}
@@ -827,24 +758,6 @@ func (r *run) observe(i int, s *stepT) *rt.Result {
 			x := rt.Fail(i, fmt.Sprintf("segment %d after %s: reader ends with error=%v, spec has undecodable tail=%v", gotIDs[k], s.A, garbage, wantGarbage), garbage, wantGarbage)
 			return &x
 		}
-		// size bookkeeping of the concretisation (never a verdict): planned sizes keep roll-over decisions aligned
-		st, _ := os.Stat(f)
-		plan := s.Exp.Segs[k].G * r.c.Unit
-		limit := plan
-		for _, it := range s.Exp.Segs[k].Items {
-			if it != 0 {
-				plan += r.ops[it].size
-				limit += r.c.Ops[it-1].Sz * r.c.Unit
-			}
-		}
-		if st != nil && int(st.Size()) > limit {
-			r.retry = true
-		} else if st != nil && int(st.Size()) != plan {
-			r.drift["entry_size_differs_from_calibration"] = true
-			if int(st.Size()) > plan+6 {
-				r.drift["entry_size_above_calibration_by_more_than_6"] = true
-			}
-		}
 	}
 	if r.w != nil {
 		cl, err := r.w.ClosedSegments()
@@ -936,7 +849,7 @@ func (r *run) sweep(i int, s *stepT, before, after map[string][]byte) *rt.Result
 		} else {
 			offs = append(offs, prev, prev+1, prev+4, prev+5, prev+6, e-1)
 			for k := 0; k < 12; k++ {
-				offs = append(offs, prev+r.cc.pads.Intn(e-prev))
+				offs = append(offs, prev+r.cc.rng.Intn(e-prev))
 			}
 		}
 		prev = e
@@ -1019,25 +932,10 @@ func runCase(c *caseT, env *rt.Env, salt int) (res rt.Result, retry bool) {
 	hc.hold = hooksPresent
 	hc.tokens = 0
 	hc.mu.Unlock()
-	// pad every operation to the size the spec accounts for it (measured on a scratch WAL of the real code)
-	m := &run{c: &caseT{SegSize: 1 << 20, Unit: 1024}, env: env, drift: map[string]bool{}, dir: filepath.Join(r.root, "calib")}
-	if err := m.openWAL(); err != nil {
-		return rt.Infra("open calibration WAL: " + err.Error()), false
-	}
 	r.ops = make([]*cop, len(c.Ops)+1)
 	for i := range c.Ops {
-		o, err := r.cc.calibrate(m, &c.Ops[i], i+1, c.Ops[i].Sz*c.Unit)
-		if err != nil {
-			m.release(false, 2*time.Second)
-			m.w.Close()
-			return rt.Infra(err.Error()), false
-		}
-		r.ops[i+1] = o
+		r.ops[i+1] = r.cc.build(&c.Ops[i], i+1)
 	}
-	if x := m.release(false, waitMax); x != nil {
-		return *x, false
-	}
-	m.w.Close()
 	r.dir = filepath.Join(r.root, "e0")
 	if err := os.MkdirAll(r.dir, 0o755); err != nil {
 		return rt.Infra(err.Error()), false
@@ -1080,13 +978,13 @@ func runCase(c *caseT, env *rt.Env, salt int) (res rt.Result, retry bool) {
 		if err != nil {
 			return rt.Infra(err.Error()), false
 		}
+		if tornSeg != 0 && s.Fseg == tornSeg && (len(s.Flushed) > 0 || (s.A == "crash" && len(s.Inflight) > 0)) {
+			afterTorn = true
+		}
 		if s.A == "reopen" && i > 0 && c.Steps[i-1].A == "crash" && c.Steps[i-1].Tz > 0 && s.Exp.Cur == c.Steps[i-1].Fseg {
 			tornSeg = s.Exp.Cur
 		} else if s.A == "reopen" || s.A == "crash" || s.A == "close" {
 			tornSeg = 0
-		}
-		if tornSeg != 0 && s.Fseg == tornSeg && (len(s.Flushed) > 0 || (s.A == "crash" && len(s.Inflight) > 0)) {
-			afterTorn = true
 		}
 		fail := func(x *rt.Result) (rt.Result, bool) {
 			if x.Step < 0 && x.Kind != "infra" {
@@ -1103,14 +1001,14 @@ func runCase(c *caseT, env *rt.Env, salt int) (res rt.Result, retry bool) {
 			if r.w == nil {
 				return rt.Infra("write on a closed WAL"), false
 			}
-			if x := r.writeNow(r.ops[s.N], s.N); x != nil {
+			if x := r.writeNow(r.ops[s.N], s.N, s.Rolled); x != nil {
 				return fail(x)
 			}
 		case "append":
 			if !hooksPresent {
 				return rt.Result{OK: true, Evals: r.evals, Drift: []string{"no_wal_hooks_concurrent_history_skipped"}}, false
 			}
-			if x := r.startAppend(s.N, r.ops[s.N]); x != nil {
+			if x := r.startAppend(s.N, r.ops[s.N], s.Rolled); x != nil {
 				return fail(x)
 			}
 			if x := r.expectAcked(s.Flushed, "roll-over during append"); x != nil {
@@ -1129,6 +1027,9 @@ func runCase(c *caseT, env *rt.Env, salt int) (res rt.Result, retry bool) {
 			}
 			if x := r.expectAcked(s.Flushed, "CloseSegment"); x != nil {
 				return fail(x)
+			}
+			if s.Exp.Cur != s.Fseg {
+				r.wsize = 0
 			}
 		case "remove":
 			var paths []string
@@ -1187,10 +1088,21 @@ func runCase(c *caseT, env *rt.Env, salt int) (res rt.Result, retry bool) {
 					cut = ends[s.J-1]
 				}
 				if s.Tz > 0 {
-					if s.J >= len(ends) || cut+s.Tz*c.Unit >= ends[s.J] {
-						return rt.Infra("torn size not below the entry size"), false
+					if s.J >= len(ends) {
+						return rt.Infra("no entry left to tear"), false
 					}
-					cut += s.Tz * c.Unit
+					// tz = 1: a short prefix of the next entry (inside or just after its 5-byte header); tz > 1: a long one
+					elen := ends[s.J] - cut
+					short := []int{1, 3, 4, 5, 6}
+					long := []int{elen - 1, elen - 2, elen / 2, elen - elen/4}
+					k := short[r.cc.rng.Intn(len(short))]
+					if s.Tz > 1 || (c.Ops[s.Inflight[s.J]-1].Sz == 2 && r.cc.rng.Intn(2) == 0) {
+						k = long[r.cc.rng.Intn(len(long))]
+					}
+					if k < 1 || k >= elen {
+						k = elen - 1
+					}
+					cut += k
 				}
 				image = map[string][]byte{}
 				for n, b := range before {
@@ -1210,6 +1122,13 @@ func runCase(c *caseT, env *rt.Env, salt int) (res rt.Result, retry bool) {
 			}
 		case "reopen":
 			// Engine.Open: WAL.Open, (FileStore.Open,) reloadCache = CacheLoader over segmentFileNames
+			r.wsize = 0
+			if s.Exp.Cur != 0 {
+				// WAL.Open continues the last segment and takes its size from stat, before the loader cuts a torn tail
+				if st, err := os.Stat(filepath.Join(r.dir, segName(c.Base+s.Exp.Cur))); err == nil {
+					r.wsize = st.Size()
+				}
+			}
 			if err := r.openWAL(); err != nil {
 				x := rt.Fail(i, "WAL.Open on the recovered directory: "+err.Error(), err.Error(), nil)
 				return fail(&x)
@@ -1232,9 +1151,6 @@ func runCase(c *caseT, env *rt.Env, salt int) (res rt.Result, retry bool) {
 		}
 		if x := r.observe(i, s); x != nil {
 			return fail(x)
-		}
-		if r.retry {
-			return rt.Result{}, true
 		}
 		if len(s.Flushed) > 0 && s.A != "crash" {
 			after, err := readAll(r.dir)
@@ -1318,18 +1234,10 @@ func main() {
 		if err := json.Unmarshal(raw, &c); err != nil {
 			return rt.Infra("bad case: " + err.Error())
 		}
-		if c.Unit == 0 {
-			c.Unit = 64
+		res, _ := runCase(&c, env, 0)
+		if !hooksPresent {
+			res.Drift = append(res.Drift, "no_wal_hooks")
 		}
-		for salt := 0; salt < 6; salt++ {
-			res, retry := runCase(&c, env, salt)
-			if !retry {
-				if !hooksPresent {
-					res.Drift = append(res.Drift, "no_wal_hooks")
-				}
-				return res
-			}
-		}
-		return rt.Infra("entry padding did not come out at the planned size in 6 attempts")
+		return res
 	})
 }
